@@ -422,6 +422,7 @@ struct BoxRun {
   std::vector<uint64_t> known;              // ids emplaced in earlier rounds / by main (visible to workers of a round)
   std::vector<uint64_t> fresh[8];           // ids created by workers in the current round
   std::atomic<uint64_t> mail[4];
+  std::map<uint64_t, int> attempts;         // id -> takes issued while the id was not stale
   uint64_t next_serial = 1;
   uint64_t ctor = 0, dtor = 0;
 
@@ -478,6 +479,7 @@ struct BoxRun {
       uint64_t cur = slot_serial.count(slot) ? slot_serial[slot] : 0;
       if (cur != serial_of[id]) { probe("stale_take_on_recycled_slot"); if (ledger[cur].state == IS_DEPOSITED) probe("stale_take_while_slot_deposited"); }
     }
+    if (!stale) attempts[id]++;
     if (!released) {
       Ctx c{this, id, stale, t};
       return api->take(id, use_cb, &c);
@@ -570,12 +572,11 @@ struct BoxRun {
         Ledger& L = ledger[serial_of[id]];
         if (L.state == IS_OWNED) fail("harness", "round-end", "item still owned after join");
         if (L.state != IS_DEPOSITED) continue;
-        bool contended = false;
-        for (uint64_t rid : round_ids) if (rid == id) contended = true;
+        if (attempts[id] > 0)
+          fail("lost", "take", "%d take calls were made with the valid id %#llx of a deposited item and every one of them returned empty", attempts[id], (unsigned long long)id);
         OpScope sc(mop++);
         if (!do_take(0, id, (r & 1) != 0, false))
           fail("lost", "take", "item of id %#llx is deposited and untaken, every concurrent take returned empty and a final take at quiescence returned empty too", (unsigned long long)id);
-        (void)contended;
       }
       for (auto& m : mail) m.store(0, std::memory_order_relaxed);
       // a second take of anything known is stale now
